@@ -79,6 +79,15 @@ func (m UniformObjectMap) FindGroupKindName(gk schema.GroupKind, name string) *u
 			if found {
 				return object
 			}
+			// The map is keyed by namespace/name, while callers that work relative to a
+			// namespaced parent (rolling updates, ControllerRevisions) know children by
+			// their bare name. All children of a namespaced parent share its namespace,
+			// so the name alone identifies the object.
+			for _, object := range objects {
+				if object.GetName() == name {
+					return object
+				}
+			}
 		}
 	}
 	return nil
